@@ -211,4 +211,60 @@ def activeCurrent {n d : Nat} (X : Fin n → Fin d → α) (cl : List (Nat × Li
 def activeFixed {n d : Nat} (X : Fin n → Fin d → α) (cl : List (Nat × List α)) : Option (List Nat) :=
   activeWith testFixed X cl
 
+/-! ### `_compute_grads` (back-propagation; serves C03)
+
+  Reads `self._leaf`, `self._all_binnings`, `self._all_orders` as retained by the `_infer(X)` call that
+  precedes it in `fit` (same `X`): the model recomputes them from `X`. -/
+
+local instance (priority := low) instInhabitedGrads : Inhabited α := ⟨0⟩
+
+/-- `np.argsort` of an integer vector (used on `order`, a permutation: gives its inverse) -/
+def argsortNat (l : List Nat) : List Nat :=
+  (isort (fun p q : Nat × Nat => decide (p.1 ≤ q.1)) l.zipIdx).map fun p => p.2
+
+/-- the axis lengths `len(x[1]) + 1` of `axes_for_reshape` -/
+def radices (cl : List (Nat × List α)) : List Nat := cl.map fun z => z.2.length + 1
+
+/-- coordinate along axis `i` of the flat leaf index `l` in the C-order reshape to `radices` -/
+def digit (rs : List Nat) (i l : Nat) : Nat := (l / (rs.drop (i + 1)).prod) % rs.getD i 1
+
+/-- `_compute_grads(X, y_pred, gradient)`: the list `updates` — first `-leaf_score_backprop`
+    (row-major `L × K`), then `-cut_grad` for every entry of `cut_points_list_`. -/
+def computeGrads {n d L K : Nat} (T : α) (X : Fin n → Fin d → α) (cl : List (Nat × List α))
+    (S : Fin L → Fin K → α) (yPred grad : Fin n → Fin K → α) : Option (List (List α)) :=
+  match (List.finRange n).mapM (fun r => leafRow T (X r) cl) with
+  | none => none
+  | some leaves =>
+    if leaves.all (fun lf => lf.length == L) then
+      let leaf : Fin n → Fin L → α := fun r l => (leaves.getD r.val []).getD l.val 0
+      -- y_pred_grad = y_pred * (gradient - (y_pred * gradient).sum(1, keepdims=True))
+      let ypg : Fin n → Fin K → α :=
+        tab2 fun r k => yPred r k * (grad r k - sumFin fun k' => yPred r k' * grad r k')
+      -- leaf_score_backprop = self._leaf.T @ y_pred_grad
+      let lsb : List α := (List.finRange L).flatMap fun l => (List.finRange K).map fun k =>
+        -(sumFin fun r => leaf r l * ypg r k)
+      -- binning_backprop = (y_pred_grad @ self.leaf_scores_.T).reshape(axes) * self._leaf.reshape(axes)
+      let bb : Fin n → Fin L → α := tab2 fun r l => (sumFin fun k => ypg r k * S l k) * leaf r l
+      let rs := radices cl
+      let cutGrads : List (List α) := cl.zipIdx.map fun zi =>
+        let z := zi.1
+        let i := zi.2
+        let ci := z.2.length
+        -- self._all_binnings[i]
+        let B : Fin n → Fin (ci + 1) → α := tab2 fun r j => (binning T (xget (X r) z.1) z.2).getD j.val 0
+        -- softmax_grad = binning_backprop.sum(axes_for_sum) / self._all_binnings[i]
+        let sg : Fin n → Fin (ci + 1) → α := tab2 fun r j =>
+          (sumFin fun l : Fin L => if digit rs i l.val = j.val then bb r l else 0) / B r j
+        -- bin_grad = B * (softmax_grad - (B * softmax_grad).sum(1, keepdims=True)); bin_grad /= temperature
+        let bg : Fin n → Fin (ci + 1) → α := tab2 fun r j =>
+          B r j * (sg r j - sumFin fun j' => B r j' * sg r j') / T
+        -- bias_grad = bin_grad.sum(0)[1:]
+        let biasGrad : List α := (List.finRange (ci + 1)).tail.map fun j => sumFin fun r => bg r j
+        -- cumsum_grad = -np.cumsum(bias_grad[::-1])[::-1]
+        let cumsumGrad : List α := (cumsum biasGrad.reverse).reverse.map fun v => -v
+        -- cut_grad = cumsum_grad[np.argsort(self._all_orders[i])] ; updates += [-cut_grad]
+        (argsortNat (argsort z.2)).map fun p => -(cumsumGrad.getD p 0)
+      some (lsb :: cutGrads)
+    else none
+
 end GemVerif.Model.Douglas
